@@ -249,12 +249,16 @@ class GraphProcessor:
         sel_choice_opt_nodes = self._sel_choice_opt_nodes
         is_forced = self._sel_choice_is_forced
         permanent_nodes = self._hierarchy_analyzer.influence_matrix.permanent_nodes_incl_choice_nodes
+        # The fast encoder reports a choice as inactive if it is left with one option by earlier choices (it is then
+        # resolved automatically), so there also permanent choices can be inactive
+        any_can_be_inactive = self.encoder_type == SelChoiceEncoderType.FAST
         for i_dec, choice_node in enumerate(self.selection_choice_nodes):
             if is_forced[i_dec]:
                 continue
             options = sel_choice_opt_nodes[choice_node]
-            des_vars.append(DesVar.from_choice_node(choice_node, options, existing_names=existing_names,
-                                                    conditionally_active=choice_node not in permanent_nodes))
+            des_vars.append(DesVar.from_choice_node(
+                choice_node, options, existing_names=existing_names,
+                conditionally_active=any_can_be_inactive or choice_node not in permanent_nodes))
             sel_choice_idx_map.append(i_dec)
 
             # Track existing names
